@@ -641,6 +641,14 @@ func (fc *fnCtx) returnObligations(fn *ssa.Function, c *Contract, rn []string) {
 				}
 				return Val{}, false
 			}
+			// a parameter that the body reassigns denotes its CURRENT value at this return
+			// (use old(p) for the value on entry)
+			for k := range fc.params {
+				if v, ok := env.ghost(k); ok {
+					env.vars[k] = v
+				}
+			}
+			env.oldVars = fc.params
 			for j, n := range rn {
 				if j < len(r.vals) {
 					env.vars[n] = r.vals[j]
